@@ -4,6 +4,7 @@ id=$1; shift; props="$id $*"
 wt=/tmp/seed-$id; out=/tmp/seed-$id-out
 cd $wt || exit 9
 git checkout -q -- . ; git clean -fdq
+git checkout -q --detach $(git -C /repo rev-parse HEAD)   # seeds are verified against the current repaired tree
 echo "== demo on clean tree"; PYTHONPATH=$wt /venv/bin/python $out/demo.py >/dev/null 2>&1; echo "   exit=$?"
 git apply $out/patch.diff || { echo "PATCH DOES NOT APPLY"; exit 8; }
 echo "== files: $(git diff --stat | tail -1)"
